@@ -73,6 +73,12 @@ func manageCanaryStatus(annotations map[string]string, params *Parameters, now t
 	result.IsFailed = eds.IsCanaryDeploymentFailed(params.Replicaset)
 	result.IsPaused, result.PausedReason = eds.IsCanaryDeploymentPaused(annotations, params.Replicaset)
 	result.IsUnpaused = eds.IsCanaryDeploymentUnpaused(annotations)
+	if result.IsUnpaused && !result.IsFailed {
+		// Unpausing is a manual action and takes precedence. It has to be honoured here as well, and not only
+		// while evaluating the canary pods: a canary paused before its first pod was created has no pod to evaluate.
+		result.IsPaused = false
+		result.PausedReason = ""
+	}
 
 	var (
 		metaNow = metav1.NewTime(now)
